@@ -28,6 +28,8 @@ SPECIAL_STRINGS = {
     "cpe": ["cpe:2.3:a:microsoft:word:2000:*:*:*:*:*:*:*", "cpe:2.3:o:linux:linux_kernel:5.4:*:*:*:*:*:*:*"],
     "swid": ["<SoftwareIdentity name=\"x\"/>", "swid-tag-1"], "pattern_version": ["2.1"],
     "path_enc": ["UTF-8", "windows-1252"], "name_enc": ["UTF-8", "SHIFT_JIS"],
+    # MUST be ASCII a-z, 0-9 and hyphen
+    "relationship_type": ["uses", "indicates", "related-to", "targets", "x-custom-rel", "a1-b2", "derived-from", "duplicate-of"],
 }
 SOCKET_OPTS = ["SO_REUSEADDR", "SO_KEEPALIVE", "IP_TTL", "TCP_NODELAY", "IPV6_V6ONLY", "ICMP_FILTER", "MCAST_JOIN_GROUP", "SO_ATTACH_FILTER"]
 
